@@ -1,4 +1,5 @@
 """C12 — quantize-dropout keeps a prefix of layers and nulls the rest."""
+import os
 import random, itertools
 from vlib import core
 from vlib.core import zlit, blist
@@ -236,6 +237,28 @@ def correspond(ctx, scale):
             for seed in (0, 1, 2, 3):
                 flags, problems = run_one(q, cls, n, seed, False, train=False)
                 add_case(cls, n, c, m, seed, False, flags, problems, train=False, expect_drop=False)
+    # explicit seeds inside a real 2-process gloo group: the depth is the one the same seed gives in a single process (world size must not enter)
+    import shutil, tempfile
+    import torch.multiprocessing as mp
+    from props import c12_worker
+    dcfg = (4, 0, 1)
+    dseeds = [0, 1, 2, 3, 5, 8, 13, 4999, 9999]
+    dtmp = tempfile.mkdtemp(dir='/dev/shm', prefix='vq_c12_')
+    try:
+        mp.spawn(c12_worker.worker, args=(2, os.path.join(dtmp, 'init'), dtmp, dseeds, dcfg), nprocs=2, join=True)
+        ranks = [torch.load(os.path.join(dtmp, f'c12_rank{r}.pt')) for r in range(2)]
+        for (cls, seed), (flags0, probs0) in ranks[0].items():
+            flags1 = ranks[1][(cls, seed)][0]
+            q1 = make(cls, *dcfg, False)
+            flags_single, _ = run_one(q1, cls, dcfg[0], seed, False)
+            dist['distributed_explicit_seed'] = dist.get('distributed_explicit_seed', 0) + 1
+            if flags0 is None or flags0 != flags_single or flags1 != flags_single:
+                failures.append({'key': f'{cls}:distributed-explicit-seed', 'what': f'{cls}(n={dcfg[0]}) seed={seed}: dropped-layer pattern inside a 2-process group {flags0} / {flags1} differs from the single-process pattern {flags_single} {probs0[:1]}',
+                                 'case': dict(cls=cls, n=dcfg[0], cutoff=dcfg[1], m=dcfg[2], seed=seed, image=False, train=True, expect_drop=True, distributed=True)})
+    except Exception as ex:
+        failures.append({'key': f'distributed-explicit-seed:spawn:{type(ex).__name__}', 'what': f'2-process gloo run failed: {str(ex)[:300]}', 'case': {'part': 'distributed'}})
+    finally:
+        shutil.rmtree(dtmp, ignore_errors=True)
     # supplied indices (ResidualVQ): dropout must not happen -> output equals the all-layer output
     from vector_quantize_pytorch import ResidualVQ
     for (n, c, m) in cfgs[:3]:
